@@ -268,14 +268,16 @@ def ex_prefix(kind, c0, c1, mode):
     return pre + ["append 0 1 11", "append 1 1 11", "append 1 2 12"]
 
 
-def exhaustive(depth):
-    """every op sequence of length 1..depth over the container's alphabet, for every configuration"""
+def exhaustive(depth, deep_configs=None):
+    """every op sequence of length 1..depth over the container's alphabet, for every configuration
+    (`deep_configs`: indices of the configurations enumerated to `depth`, the others to `depth - 1`)"""
     hs = []
     for kind in KINDS:
         al = alphabet(kind)
-        for (c0, c1, mode) in EX_CONFIGS:
+        for n, (c0, c1, mode) in enumerate(EX_CONFIGS):
             pre = ex_prefix(kind, c0, c1, mode)
-            for d in range(1, depth + 1):
+            dd = depth if deep_configs is None or n in deep_configs else depth - 1
+            for d in range(1, dd + 1):
                 for p in itertools.product(al, repeat=d):
                     hs.append(pre + list(p) + ["wb 0", "wb 1"])
     return hs
@@ -336,18 +338,20 @@ def histories_for(ctx):
     hs = C.load_corpus(ctx.prop)
     ncorpus = len(hs)
     depth = 3
-    ex = exhaustive(depth)
+    # quick tier: length 3 for the all-in-one-bucket and the mod-2 configuration, length 2 for the other three
+    ex = exhaustive(depth, {0, 2} if quick else None)
     smp = sampled(rng, [4, 5, 6], 10000 if quick else 1500000)
     rnd = [gen_history(rng, rng.choice([5, 10, 20, 40, 80])) for _ in range(6000 if quick else 250000)]
     ctx.cov["rule"] = (f"corpus ({ncorpus}) + exhaustive: for each container (map,set,pool) x {len(EX_CONFIGS)} (capacity, capacity, hash) configurations, "
                        f"all op sequences of length <= {depth} over the container's op alphabet ({', '.join(str(len(alphabet(k))) for k in KINDS)} ops; keys 0..3, two tables) "
-                       f"after a 3-insert prefix ({len(ex)} histories, complete) + {len(smp)} uniformly drawn sequences of length 4..6 over the same alphabets + {len(rnd)} random histories of 5..80 ops over 2 tables, capacities {CAPS}, hash modes "
+                       f"after a 3-insert prefix ({len(ex)} histories, complete{'; length 3 for configurations 0 and 2, length 2 for the others' if quick else ''}) + {len(smp)} uniformly drawn sequences of length 4..6 over the same alphabets + {len(rnd)} random histories of 5..80 ops over 2 tables, capacities {CAPS}, hash modes "
                        "identity/constant/mod 2/complement/halving, key domains 3..8; every op line prints size, isEmpty, iteration, find of every key, contains, front/back, "
                        "== in both directions, returned iterator position, backward traversal and white-box chain consistency flags; `wb` lines (end of every enumerated history, 12% of "
                        "the random ops) compare capacity, block count, every bucket chain, the free list and the order list as canonical item ids (4*block+slot) with the model's stored data; "
                        "distinct_nontrivial = distinct (container, op-kind set, final observation)")
     ctx.cov["exhaustive"] = False
-    ctx.cov["exhaustive_scope"] = f"length<={depth} over the per-container alphabets x {len(EX_CONFIGS)} configurations: {len(ex)} histories (complete)"
+    ctx.cov["exhaustive_scope"] = (f"length<={depth} over the per-container alphabets x {len(EX_CONFIGS)} configurations"
+                                   f"{' (length 3 for 2 of them, length 2 for 3)' if quick else ''}: {len(ex)} histories (complete)")
     return hs + ex + smp + rnd
 
 
